@@ -25,6 +25,9 @@ pub enum Op {
     TunnelRefused(u16),
     /// move bytes through tunnel (index): (client -> destination, destination -> client)
     Transfer(u16, u16, u16),
+    /// a download of 100-400 KB on a tunnel while the client withholds window updates until its
+    /// window is exhausted (the endpoint's client-side sink accepts chunks only partially)
+    BigDownload(u16, u16),
     /// 0 client ends first (graceful), 1 client resets / drops, 2 destination ends first
     CloseTunnel(u16, u8),
     CloseSession(u16),
@@ -352,6 +355,63 @@ async fn run_history(c: &Case) -> Verdict {
                 *model.up.entry(t.proto).or_default() += up_n as u64;
                 *model.down.entry(t.proto).or_default() += down_n as u64;
             }
+            Op::BigDownload(i, kb) => {
+                let live: Vec<usize> = tunnels.iter().enumerate().filter(|(_, t)| t.client.is_some() && t.dest.is_some()).map(|(k, _)| k).collect();
+                if live.is_empty() {
+                    continue;
+                }
+                let t = &mut tunnels[live[idx(*i, live.len())]];
+                let total = (100 + *kb as usize % 300) * 1024;
+                let data = vec![0x42u8; total];
+                let dest = t.dest.as_mut().unwrap();
+                let (mut rd, mut wr) = dest.conn.split();
+                let writer = async {
+                    wr.write_all(&data).await.map_err(|e| e.to_string())
+                };
+                let client = t.client.as_mut().unwrap();
+                let reader = async {
+                    let mut rcvd = 0usize;
+                    let mut unreleased = 0usize;
+                    let deadline = tokio::time::Instant::now() + Duration::from_secs(20);
+                    while rcvd < total {
+                        match client {
+                            ClientSide::H1(io) => {
+                                let mut tmp = vec![0u8; 16384];
+                                match tokio::time::timeout_at(deadline, io.read(&mut tmp)).await {
+                                    Ok(Ok(n)) if n > 0 => rcvd += n,
+                                    _ => break,
+                                }
+                            }
+                            ClientSide::H2 { recv, .. } => match tokio::time::timeout(Duration::from_millis(30), recv.data()).await {
+                                Ok(Some(Ok(b))) => {
+                                    rcvd += b.len();
+                                    unreleased += b.len();
+                                }
+                                Ok(_) => break,
+                                Err(_) => {
+                                    // nothing arrives any more: the window is exhausted - open it
+                                    if unreleased == 0 || tokio::time::Instant::now() > deadline {
+                                        break;
+                                    }
+                                    let _ = recv.flow_control().release_capacity(unreleased);
+                                    unreleased = 0;
+                                }
+                            },
+                        }
+                    }
+                    if let ClientSide::H2 { recv, .. } = client {
+                        if unreleased > 0 {
+                            let _ = recv.flow_control().release_capacity(unreleased);
+                        }
+                    }
+                    rcvd
+                };
+                let (w, rcvd) = tokio::join!(writer, reader);
+                let _ = &mut rd;
+                w.map_err(|e| herr("io", e))?;
+                ensure!(rcvd == total, "relay:download-stalled", "step {}: client received {} of {} bytes of a big download", step, rcvd, total);
+                *model.down.entry(t.proto).or_default() += total as u64;
+            }
             Op::CloseTunnel(i, how) => {
                 let live: Vec<usize> = tunnels.iter().enumerate().filter(|(_, t)| t.client.is_some()).map(|(k, _)| k).collect();
                 if live.is_empty() {
@@ -479,7 +539,9 @@ async fn run_history(c: &Case) -> Verdict {
     for name in series_names() {
         // labelled series appear once one of their label values has been used (standard
         // Prometheus behaviour), so they are demanded only after a session / a transfer existed
-        let has_traffic = model.up.values().chain(model.down.values()).any(|v| *v > 0);
+        // a traffic series shows up once its direction has carried bytes; which series is which
+        // direction is not pinned down, so both are demanded only when both directions were used
+        let has_traffic = model.up.values().any(|v| *v > 0) && model.down.values().any(|v| *v > 0);
         let had_session = c.ops.iter().any(|o| matches!(o, Op::OpenH1 | Op::OpenH2));
         let needed = !(name.contains("traffic") && !has_traffic) && !(name == "client_sessions" && !had_session);
         if needed {
@@ -514,7 +576,7 @@ impl Suite for HistorySuite {
         "session-histories"
     }
     fn rule(&self) -> String {
-        "histories of 5-30 operations {open HTTP/1.1 session, open HTTP/2 session, open tunnel to a loopback canary, tunnel to a closed port (refused), transfer n bytes up and m bytes down (n != m in general), close tunnel gracefully / by reset / destination first, close session} against a real Core (in-memory client transports, real direct forwarder and real loopback TCP destinations); after every operation the exported text (Metrics::collect, the body of GET /metrics) must reach the model within 4 s: client_sessions per protocol = live sessions, outbound_tcp_sockets = live outbound connections, the two traffic series = bytes relayed in the two directions per protocol (either consistent assignment of series to directions), all back to zero at the end, every series named in METRICS.md present with its protocol_type label; non-trivial = history with a refused connect and an abortive close".into()
+        "histories of 5-30 operations {open HTTP/1.1 session, open HTTP/2 session, open tunnel to a loopback canary, tunnel to a closed port (refused), transfer n bytes up and m bytes down (n != m in general), download 100-400 KB while the client withholds window updates (partial acceptance at the endpoint's client-side sink), close tunnel gracefully / by reset / destination first, close session} against a real Core (in-memory client transports, real direct forwarder and real loopback TCP destinations); after every operation the exported text (Metrics::collect, the body of GET /metrics) must reach the model within 4 s: client_sessions per protocol = live sessions, outbound_tcp_sockets = live outbound connections, the two traffic series = bytes relayed in the two directions per protocol (either consistent assignment of series to directions), all back to zero at the end, every series named in METRICS.md present with its protocol_type label; non-trivial = history with a refused connect and an abortive close".into()
     }
     fn strategy(&self, _: Tier) -> BoxedStrategy<Case> {
         let op = prop_oneof![
@@ -523,6 +585,7 @@ impl Suite for HistorySuite {
             5 => any::<u16>().prop_map(Op::TunnelOk),
             2 => any::<u16>().prop_map(Op::TunnelRefused),
             5 => (any::<u16>(), any::<u16>(), any::<u16>()).prop_map(|(a, b, c)| Op::Transfer(a, b, c)),
+            2 => (any::<u16>(), any::<u16>()).prop_map(|(a, b)| Op::BigDownload(a, b)),
             3 => (any::<u16>(), 0u8..3).prop_map(|(a, b)| Op::CloseTunnel(a, b)),
             1 => any::<u16>().prop_map(Op::CloseSession),
         ];
